@@ -31,7 +31,7 @@ MANIFEST = {
              "millisecond timeouts, unbuffered results channel, quit closed while a result is being handed back to "
              "nobody). The repository's own work-manager tests are re-run with the hooks recording; "
              "their executions are judged by the same operators and validated against TraceWorkManager.tla.",
-        note="Bounded: <=2 addresses, <=3 peer objects, <=2 batches x <=2 requests, retry caps {1,2,unlimited}, "
+        note="Bounded: <=2 addresses, <=3 peer objects, <=2 batches x <=2 requests, NumRetries {0,1,2} x NoRetryMax {no,yes}, "
              "<=2-3 failures per history. Trusts TLC, the scripted worker's adherence to the Worker contract (checked "
              "on worker.Run separately, not in composition), and that environment events arrive while the dispatcher "
              "is settled (races inside the microsecond hand-off window are not scheduled). The meaning of a retry cap "
@@ -57,7 +57,7 @@ WOFF = 10000000      # trace ids of the worker part
 
 CODE_VERSION = json.load(open(os.path.join(SPEC, "code_version.json")))
 
-BASE = dict(NAddr=2, MaxConn=2, MaxBatch=1, MaxReq=2, Retries="{2}", Hards="{0}", Progs="{0}",
+BASE = dict(NAddr=2, MaxConn=2, MaxBatch=1, MaxReq=2, Retries="{2}", NoMaxes="{0}", Hards="{0}", Progs="{0}",
             MaxFail=1, MaxExit=0, MaxCancel=0, MaxStale=0, MaxOk=2)
 
 def cfg(**kw):
@@ -68,33 +68,37 @@ def cfg(**kw):
 # Several small exhaustive configurations ("slices") instead of one product:
 # each one finishes in seconds and EVERY transition of each is replayed.
 SLICES = {
+    # "unlimited retries" is always NumRetries(0) + NoRetryMax(): the cap that must have no effect is the
+    # one that would end a batch on its first failure.
     "quick": [
         # same-address reconnects (<=3 peer objects of ONE address), 2 batches, unlimited retries, idle exit
-        ("reconnect1", cfg(NAddr=1, MaxConn=3, MaxBatch=2, Retries="{0}", MaxExit=1)),
+        ("reconnect1", cfg(NAddr=1, MaxConn=3, MaxBatch=2, Retries="{0}", NoMaxes="{1}", MaxExit=1)),
         # two addresses, failures/disconnects move the ranking, idle exit
-        ("rank2", cfg(Retries="{0}", MaxFail=2, MaxExit=1)),
-        # retry caps 1 and 2, caller cancellation
-        ("retry1", cfg(Retries="{1,2}", MaxFail=2, MaxCancel=1)),
+        ("rank2", cfg(Retries="{0}", NoMaxes="{1}", MaxFail=2, MaxExit=1)),
+        # retry caps 0, 1 and 2 (a cap of 0 alone is a real limit), caller cancellation
+        ("retry1", cfg(Retries="{0,1,2}", MaxFail=2, MaxCancel=1)),
         # two batches in flight on two peers
         ("two", cfg(MaxBatch=2, MaxReq=1, Retries="{1}", MaxCancel=1)),
-        # hard and idle timeouts on/off, stale and late wakes
+        # hard and idle timeouts on/off, stale and late wakes; NumRetries {0,2} x NoRetryMax {no,yes}
         # (unlimited retries + hard deadline + failing results: only the deadline can end such a batch)
-        ("timersA", cfg(NAddr=1, MaxConn=1, Retries="{0,2}", Hards="{0,1}", Progs="{0,1}", MaxFail=2, MaxStale=1)),
+        ("timersA", cfg(NAddr=1, MaxConn=1, Retries="{0,2}", NoMaxes="{0,1}", Hards="{0,1}", Progs="{0,1}",
+                        MaxFail=2, MaxStale=1)),
         ("timersB", cfg(NAddr=1, MaxConn=1, MaxBatch=2, MaxReq=1, Hards="{1}", Progs="{1}", MaxStale=1)),
     ],
     "thorough": [
-        ("reconnect1", cfg(NAddr=1, MaxConn=3, MaxBatch=2, Retries="{0}", MaxExit=1)),
-        ("reconnect2", cfg(MaxConn=3, MaxBatch=2, Retries="{0}", MaxExit=1)),
-        ("rank2", cfg(Retries="{0}", MaxFail=2, MaxExit=1)),
+        ("reconnect1", cfg(NAddr=1, MaxConn=3, MaxBatch=2, Retries="{0}", NoMaxes="{1}", MaxExit=1)),
+        ("reconnect2", cfg(MaxConn=3, MaxBatch=2, Retries="{0}", NoMaxes="{1}", MaxExit=1)),
+        ("rank2", cfg(Retries="{0}", NoMaxes="{1}", MaxFail=2, MaxExit=1)),
         ("retry2", cfg(MaxBatch=2, Retries="{1,2}", MaxFail=2)),
-        ("retry1", cfg(Retries="{0,1,2}", MaxFail=3, MaxCancel=1)),
+        # the full option product NumRetries {0,1,2} x NoRetryMax {no,yes}
+        ("retry1", cfg(Retries="{0,1,2}", NoMaxes="{0,1}", MaxFail=3, MaxCancel=1)),
         ("cancel2", cfg(MaxBatch=2, MaxCancel=1)),
-        ("timers1", cfg(Retries="{0,2}", Hards="{0,1}", Progs="{0,1}", MaxFail=2, MaxStale=1)),
+        ("timers1", cfg(Retries="{0,2}", NoMaxes="{0,1}", Hards="{0,1}", Progs="{0,1}", MaxFail=2, MaxStale=1)),
         ("timersB", cfg(NAddr=1, MaxConn=1, MaxBatch=2, MaxReq=2, Hards="{1}", Progs="{1}", MaxStale=1)),
         ("timersC", cfg(Hards="{1}", Progs="{1}", MaxStale=1, MaxCancel=1)),
         # three addresses competing by rank; four peer objects of one address; three requests per batch
-        ("three", cfg(NAddr=3, MaxConn=3, Retries="{0}", MaxFail=2, MaxExit=1)),
-        ("reconnect4", cfg(NAddr=1, MaxConn=4, MaxBatch=2, Retries="{0}", MaxExit=1)),
+        ("three", cfg(NAddr=3, MaxConn=3, Retries="{0}", NoMaxes="{1}", MaxFail=2, MaxExit=1)),
+        ("reconnect4", cfg(NAddr=1, MaxConn=4, MaxBatch=2, Retries="{0}", NoMaxes="{1}", MaxExit=1)),
         ("req3", cfg(MaxReq=3, MaxFail=2, MaxOk=3, MaxCancel=1)),
     ],
 }
@@ -124,7 +128,8 @@ def label(act):
     if op in ("Connect", "WorkerExit"):
         s = "%s(p%d#%d)" % (op, act["a"], act["i"])
     elif op == "Query":
-        s = "Query(b%d,n%d,r%d,h%d,p%d)" % (act["b"], act["n"], act["retr"], act["hard"], act["prog"])
+        s = "Query(b%d,n%d,r%d%s,h%d,p%d)" % (act["b"], act["n"], act["retr"], "u" if act.get("nomax") else "",
+                                              act["hard"], act["prog"])
     elif op == "Dispatch":
         s = "Dispatch(j%d->p%d#%d)" % (act["j"], act["a"], act["i"])
     elif op == "Gone":
@@ -190,7 +195,7 @@ def merge_verdicts(a, b):
 
 TOFF = 20000000      # trace ids of recorded free-running executions
 RES_NAMES = {0: "discard", 1: "cancel", 2: "maxtries", 4: "done", 6: "hardtimeout"}
-NOACT = dict(op="", res="ok", a=0, i=0, b=0, k=0, j=0, e=0, n=0, retr=0, hard=0, prog=0, g=0)
+NOACT = dict(op="", res="ok", a=0, i=0, b=0, k=0, j=0, e=0, n=0, retr=0, nomax=0, hard=0, prog=0, g=0)
 
 
 def convert_trace(events, cap=1500):
@@ -260,14 +265,14 @@ def convert_trace(events, cap=1500):
             continue
         if ev == "NewBatch":
             z = e["z"]
-            retr = 0 if z & 256 else z & 255
-            b = dict(n=e["y"], first=njobs + 1, retr=retr, hard=1 if z & 512 else 0, prog=1 if z & 1024 else 0,
+            retr, nomax = z & 255, (1 if z & 256 else 0)
+            b = dict(n=e["y"], first=njobs + 1, retr=retr, nomax=nomax, hard=1 if z & 512 else 0, prog=1 if z & 1024 else 0,
                      cancel=False, hardx=False)
             njobs += b["n"]
             batches.append(b)
             verd.append([])
             ans.append([0] * b["n"])
-            emit(idx, op="Query", b=len(batches), n=b["n"], retr=retr, hard=b["hard"], prog=b["prog"])
+            emit(idx, op="Query", b=len(batches), n=b["n"], retr=retr, nomax=nomax, hard=b["hard"], prog=b["prog"])
         elif ev == "Connect":
             a = amap.setdefault(e["addr"], len(amap) + 1)
             inst[a] = inst.get(a, 0) + 1
@@ -360,7 +365,7 @@ def validate_traces(traces, sc):
         "---- MODULE MCT ----\nEXTENDS TraceWorkManager\nStartsV == %s\nEndsV == %s\n====\n" % (
             tla_seq(starts), tla_seq(ends)))
     big = 100000000
-    consts = dict(NAddr=n_addr, MaxConn=big, MaxBatch=big, MaxReq=big, Retries="{0}", Hards="{0}", Progs="{0}",
+    consts = dict(NAddr=n_addr, MaxConn=big, MaxBatch=big, MaxReq=big, Retries="{0}", NoMaxes="{0}", Hards="{0}", Progs="{0}",
                   MaxFail=big, MaxExit=big, MaxCancel=big, MaxStale=big, MaxOk=big, FixStaleWorker=CODE_VERSION["FixStaleWorker"],
                   )
     cfg = ["INIT TInit", "NEXT TStep", "CONSTANTS"]
